@@ -602,7 +602,15 @@ func (ro *RedisOutput) sendRdb(pctx context.Context, reader ChannelReader) error
 				// every entry except a function library belongs to a key, and "" is a
 				// valid key: the bins of one key must reach the same worker, in order
 				if len(e.Key) > 0 || (e.ObjectParser != nil && e.ObjectParser.Type() != rdb.RdbObjectFunction) {
-					idx = util.FnvHash(e.Key) % pipeLen
+					// with replaceHashTag two snapshot keys can be replayed to ONE target key
+					// ("{a}b" and "ab"): entries are routed by the key they are written to, so
+					// that a single worker issues, in snapshot order, everything that touches it
+					routeKey := e.Key
+					if ro.cfg.ReplaceHashTag {
+						routeKey = bytes.Replace(routeKey, []byte("{"), []byte(""), 1)
+						routeKey = bytes.Replace(routeKey, []byte("}"), []byte(""), 1)
+					}
+					idx = util.FnvHash(routeKey) % pipeLen
 				} else {
 					idx = (idx + 1) % pipeLen
 				}
